@@ -119,7 +119,7 @@ func (rs *RunSummary) reportViolation(h harnessSummary, v *PathResult) {
 	}
 	write()
 	if rs.NoReplay {
-		fmt.Printf("CANDIDATE property=%s harness=%s verdict=%s pos=%s inputs: %s\n", rs.Property, h.Name, v.Verdict.String(), v.Verdict.Pos, rf.Inputs)
+		fmt.Printf("CANDIDATE property=%s harness=%s verdict=%s paths=%d pos=%s inputs: %s\n", rs.Property, h.Name, v.Verdict.String(), h.HR.VCount[v.Verdict.String()], v.Verdict.Pos, rf.Inputs)
 		fmt.Printf("VIOLATION property=%s replay=%s\n", rs.Property, path)
 		rs.violations++
 		return
